@@ -687,4 +687,19 @@ uint32_t __wrap_arc4random(void)
 	uint32_t v = (uint32_t)x;
 	return v == 0xffffffffu ? 0x7fffffffu : v;
 }
+// the same source for a library that draws its seed with arc4random_buf / arc4random_uniform instead
+void __wrap_arc4random_buf(void *buf, size_t n)
+{
+	unsigned char *b = (unsigned char *)buf;
+	for (size_t i = 0; i < n; i += 4)
+	{
+		uint32_t v = __wrap_arc4random();
+		memcpy(b + i, &v, n - i < 4 ? n - i : 4);
+	}
+}
+uint32_t __wrap_arc4random_uniform(uint32_t upper)
+{
+	uint32_t v = __wrap_arc4random();
+	return upper ? v % upper : 0;
+}
 }
